@@ -117,6 +117,11 @@ func PlaceFile(afs fs.FS, fmeta fs.Metadata, body io.Reader, skipChown bool) err
 		if err := afs.Mkdir(fmeta.Name, fmeta.Perms); err != nil {
 			return err
 		}
+		// mkdir does not honor setuid/setgid bits, and a setgid parent makes the new dir setgid:
+		// set the mode explicitly, as is done for files above.
+		if err := afs.Chmod(fmeta.Name, fmeta.Perms); err != nil {
+			return err
+		}
 	case fs.Type_Symlink:
 		// linkname can be anything you want.  It continues to be a string parameter rather than
 		// any of our normalized `fs.*Path` types because it is perfectly valid (if odd)
